@@ -112,7 +112,7 @@ def build_program(rng, nvals):
     body = []
     for k in range(nvals):
         v = interesting_value(rng)
-        form = rng.choice(['lit', 'const', 'label', 'position', 'constexpr'])
+        form = rng.choice(['lit', 'const', 'label', 'position', 'constexpr', 'label', 'position'])
         name = 'V%d' % k
         if form == 'lit':
             e = spell(rng, v)
@@ -169,7 +169,7 @@ def build_program(rng, nvals):
         checks.append((kind, first, rd, val, e))
     # assemble the line list: body, then gap, LA, gap, LB
     lines = [b[0] for b in body]
-    if rng.random() < 0.4:
+    if rng.random() < 0.6:
         # put LA so that its *pessimistic* offset (every li / pair counted 8 bytes) is just above a 2 KiB / 4 KiB boundary while
         # its final offset (after short li's shrink and, with -c, instructions compress) falls just below it
         pess = sum(8 if (l.startswith('li ') or l.startswith('lui') or l.startswith('auipc')) else (4 if not ('=' in l) else 0) for l in lines)
